@@ -237,6 +237,13 @@ Proof.
   - left. exists p'. exact H'.
 Qed.
 
+(* ... and for every timed schedule, expiries or not: whatever carrier i was written was accepted by WriteTo for the very
+   ClientID (key) that carrier presented (the first sentence of the property, downstream, in the timed model). *)
+Theorem C05_timed_downstream_written_was_accepted : forall timeout ops i k p,
+  nth_error (tcar (trun timeout ops)) i = Some k -> In p (k_down k) ->
+  exists q, In (key_of k, q, p) (tacc (trun timeout ops)).
+Proof. exact timed_downstream_only_same_id. Qed.
+
 (* The session within the retention: if no sweep ever finds the session's record idle for the timeout, then all the
    queue identities ever tied to the session are its one live queue, and what WriteTo accepted for it is, in order,
    what its carriers (any number, sequential or overlapping, across idle gaps) were written or lost with a failed
